@@ -130,6 +130,30 @@ def collect_atoms(stmts):
     return out
 
 
+class _PickIfExp(ast.NodeTransformer):
+    def __init__(self, val):
+        self.val = val
+
+    def visit_IfExp(self, node):
+        try:
+            t = evaluate(node.test, self.val)
+        except (KeyError, Unsupported):
+            return self.generic_visit(node)
+        return self.visit(node.body if t else node.orelse)
+
+    def visit_Lambda(self, node):
+        return node
+
+
+def _resolve_stmt(s, val):
+    """the simple statement with every conditional expression replaced by the branch the valuation selects (a copy,
+    positions kept); the statement itself when it contains none"""
+    if not any(isinstance(n, ast.IfExp) for n in ast.walk(s)):
+        return s
+    import copy
+    return ast.fix_missing_locations(_PickIfExp(val).visit(copy.deepcopy(s)))
+
+
 def simulate(stmts, val, opaque=False):
     """opaque=True: loops / try / with blocks are recorded as single effects
     (their bodies are not part of the ladder)."""
@@ -156,7 +180,7 @@ def simulate(stmts, val, opaque=False):
             elif isinstance(s, (ast.Pass,)):
                 continue
             else:
-                effects.append(s)
+                effects.append(_resolve_stmt(s, val))
         return None
     r = run(stmts)
     if r is None:
